@@ -130,7 +130,8 @@ Proof.
   intros H. cbv zeta. unfold check_spec in H. cbv zeta in H.
   set (e := mk_env p idem cl0 nodes down interval cs assign frs t0 tret margin co) in *.
   apply andb_true_iff in H as [H H5]. apply andb_true_iff in H as [H H4].
-  apply andb_true_iff in H as [H H3]. apply andb_true_iff in H as [H1 H2].
+  apply andb_true_iff in H as [H H3]. apply andb_true_iff in H as [H H2].
+  apply andb_true_iff in H as [H1 Hnd].
   split; [assumption|]. split; [intros t; now apply overlap_ok_sound|]. split; [assumption|].
   destruct (Spec.run (Spec.init max) ls) as [s|] eqn:Hrun; [|discriminate].
   apply andb_true_iff in H5 as [H5 H9]. apply andb_true_iff in H5 as [H5 H8].
